@@ -8,7 +8,8 @@ EXTENDS ValidationOps, TLC, Json
 
 CONSTANTS BaseSet,        \* indices into Bases explored
           PairBaseSet,    \* bases for which all pairs of malformations are explored
-          HierarchyCheck  \* FALSE = deviation D10: conditional_on is not checked against i
+          HierarchyCheck, \* FALSE = deviation D10: conditional_on is not checked against i
+          Shortcut        \* "none" | "allfixed" | "sample": validations skipped by a shortcut
 VARIABLES pc, case, stage, cls
 
 vars == <<pc, case, stage, cls>>
@@ -24,9 +25,9 @@ Step(from, to, k, exc) ==
 
 Construct == Step("described", "constructed", 1, ConstructExc(case, HierarchyCheck))
 Slice     == Step("constructed", "sliced", 2, SliceExc(case))
-Fit       == Step("sliced", "fitted", 3, FitExc(case))
+Fit       == Step("sliced", "fitted", 3, IF case.ctx.fitted THEN FitExc(case, Shortcut) ELSE "none")
 Compute   == /\ pc = "fitted"
-             /\ LET exc == ComputeExc(case) IN
+             /\ LET exc == ComputeExc(case, Shortcut) IN
                   IF exc = "none" THEN pc' = "result" /\ stage' = 5 /\ cls' = "result"
                   ELSE pc' = "raised" /\ stage' = 4 /\ cls' = exc
              /\ UNCHANGED case
